@@ -183,6 +183,20 @@ def run(ctx):
             c.ob("R6", ok, d, f"actions-only:{norm(t.ast)[:40]}",
                  "branch runs the transition's actions and returns without exiting or entering any state" if ok else
                  "a targetless/internal transition reaches an exit/enter call", t.ast)
+    # ---- R7 the transition domain is an ancestor of the target ----------------------------
+    # The entry path is _get_path_to_state(target, stop_at=domain): it stops only if the domain lies on the
+    # target's ancestor chain; otherwise it runs to the root and re-enters states that are already active
+    # (and the exit set, computed under the domain, misses the real LCA subtree).
+    fd = p.method("BaseInterpreter", "_find_transition_domain")
+    for v in VIEWS:
+        if p.method(v, "_find_transition_domain").qualname != fd.qualname:
+            c.ob("R7", False, p.method(v, "_find_transition_domain"), "domain-overridden", f"{v} overrides _find_transition_domain; rule must be re-derived", fd.node)
+    tparam = fd.params[2] if len(fd.params) > 2 else "target_state"
+    rets = [x for x in own_nodes(fd.node) if isinstance(x, ast.Return) and x.value is not None]
+    c.floor("R7", "return statements of _find_transition_domain", len(rets), 3)
+    for r_ in sorted(rets, key=lambda n: n.lineno):
+        ok, why = _domain_is_target_ancestor(fd, r_, tparam)
+        c.ob("R7", ok, fd, f"domain-return:{norm(r_.value)[:40]}", why, r_)
     # twin agreement for the pairs (C03 depends on it) is checked under C05.R1
 
 
@@ -208,3 +222,40 @@ def _deepest_first_total(expr):
     if not total:
         return False, f"exit order key '{norm(key)}' has no unique tie-break: siblings exit in set order"
     return True, "exit set sorted deepest-first with the unique id as tie-break"
+
+
+def _domain_is_target_ancestor(fd, ret, tparam):
+    from sa.util import compare_parts, derives_from
+    val = ret.value
+    txt = norm(val)
+    atoms = guards_at(fd, ret)
+    # (a) built from the target's own parent chain
+    if tparam in names_in(val) and ".parent" in txt:
+        return True, "domain is the target's parent (an ancestor of the target)"
+    # (b) picked from a set intersected with the target's ancestors
+    for nm in names_in(val):
+        for a in assignments_to(fd, nm):
+            v = getattr(a, "value", None)
+            if v is None:
+                continue
+            vt = norm(v)
+            if isinstance(v, ast.BinOp) and isinstance(v.op, ast.BitAnd):
+                sides = [norm(v.left), norm(v.right)]
+                for side in (v.left, v.right):
+                    for nm2 in names_in(side):
+                        for a2 in assignments_to(fd, nm2):
+                            if "_get_ancestors" in norm(getattr(a2, "value", a2)) and tparam in norm(getattr(a2, "value", a2)):
+                                return True, "domain is chosen among the common ancestors of source and target"
+    # (c) source-derived value: only sound when the target is the source itself, or there is no common ancestor at all
+    for a, pol in atoms:
+        cp = compare_parts(a)
+        if cp and isinstance(cp[1], ast.Eq) and pol and tparam in (norm(cp[0]), norm(cp[2])) and "source" in norm(a):
+            return True, "source's parent is returned only when the target is the source itself"
+        if isinstance(a, ast.Name) and not pol:
+            for asg in assignments_to(fd, a.id):
+                if isinstance(getattr(asg, "value", None), ast.BinOp):
+                    return True, "degenerate case: source and target share no ancestor"
+    return False, (f"'{stmt_text(ret)}' returns a domain derived from the source only, under a condition that does not imply 'target is the "
+                   f"source': for a target outside the source's parent the domain is not an ancestor of the target, so the entry path "
+                   f"(_get_path_to_state(target, stop_at=domain)) runs up to the root and re-enters active states, and the exit set misses the "
+                   f"real common-ancestor subtree")
